@@ -33,5 +33,11 @@ SelectOK == (Rec.op = "select" /\ Done) =>
 ScaleOK == (Rec.op = "scale" /\ Done) =>
     Rec.ret = [j \in 1..Len(Rec.ops) |-> Enc(Ph(Dec(Rec.ops[j]), Rec.e))]
 WeightOK == (Rec.op = "weight" /\ Done) => Rec.w = Weight(Dec(Rec.p)) /\ Rec.N = NQ(Dec(Rec.p))
+\* printing a whole list: one operator per line, nothing elided (the property promises the round trip per operator; a
+\* list printer that elides long lists, as the printer of Clifford maps does beyond 10 qubits, would not break it --
+\* model drift, never a verdict)
+Drift_ListRepr == (Rec.op = "listrepr" /\ Done) =>
+    /\ Len(Rec.lines) = Len(Rec.ops)
+    /\ \A j \in 1..Len(Rec.ops) : Rec.lines[j] = Print(Dec(Rec.ops[j]))
 NoCrash20 == ~Has("exc")
 =============================================================================
